@@ -14,6 +14,9 @@ def register(reg):
     c07.register_rp66(reg)
     register_channels(reg)
     register_frame_array(reg)
+    # row selection (populate_frame_array sizes the arrays with Slice.count / Sample.count and fills them from gen_indices)
+    from contracts import c15
+    c15.register(reg)
 
 
 def standins(tier, seed):
